@@ -826,7 +826,14 @@ func (d *D) mixedQuestion(answerLine string, multi bool, n, matchT, matchP, vari
 		at = "multiple-choice"
 	}
 	var b strings.Builder
-	fmt.Fprintf(&b, "---\ntype: question\ndifficulty: easy\nanswer-type: %s\n%s\n---\n\n## Generated question\n\nWhich program gives this?\n\n[question](%s/q.evy \"evy:%s\")\n\nChoose:\n\n", at, answerLine, dir, kind)
+	qTitle, cTitle := kind, "source"
+	switch kind {
+	case "svg-src": // the question is the program itself, the choices are pictures
+		qTitle, cTitle = "source", "svg"
+	case "text-src": // the question is the program itself, the choices are text outputs
+		qTitle, cTitle = "source", "text"
+	}
+	fmt.Fprintf(&b, "---\ntype: question\ndifficulty: easy\nanswer-type: %s\n%s\n---\n\n## Generated question\n\nWhich program gives this?\n\n[question](%s/q.evy \"evy:%s\")\n\nChoose:\n\n", at, answerLine, dir, qTitle)
 	for i := 0; i < n; i++ {
 		text, r := word, radius
 		if matchT&(1<<i) == 0 {
@@ -840,7 +847,7 @@ func (d *D) mixedQuestion(answerLine string, multi bool, n, matchT, matchP, vari
 			src = fmt.Sprintf("// choice %d\n", i) + src // same outputs, different source text
 		}
 		os.WriteFile(filepath.Join(abs, fmt.Sprintf("c%d.evy", i)), []byte(src), 0o644) //nolint:errcheck
-		fmt.Fprintf(&b, "- [answer](%s/c%d.evy \"evy:source\")\n", dir, i)
+		fmt.Fprintf(&b, "- [answer](%s/c%d.evy \"evy:%s\")\n", dir, i, cTitle)
 	}
 	return b.String()
 }
@@ -941,9 +948,9 @@ func (d *D) runMixed(sc *core.Scenario, ctx *core.Ctx) *core.Violation {
 	fmt.Sscan(sc.Sealed["matching_pic"], &matchP) //nolint:errcheck
 	fmt.Sscan(sc.Sealed["variant"], &variant)     //nolint:errcheck
 	multi := sc.Sealed["multi"] == "1"
-	kinds := []string{"text", "svg"}
+	kinds := []string{"text", "svg", "svg-src", "text-src"}
 	if sc.Sealed["order"] == "picture-first" {
-		kinds = []string{"svg", "text"}
+		kinds = []string{"svg-src", "svg", "text-src", "text"}
 	}
 	for marked := 1; marked < 1<<n; marked++ {
 		if !multi && marked&(marked-1) != 0 {
@@ -952,7 +959,7 @@ func (d *D) runMixed(sc *core.Scenario, ctx *core.Ctx) *core.Violation {
 		ans := letters(marked, n)
 		for _, kind := range kinds {
 			matching := matchT
-			if kind == "svg" {
+			if kind == "svg" || kind == "svg-src" {
 				matching = matchP
 			}
 			content := d.mixedQuestion("answer: "+ans, multi, n, matchT, matchP, variant, kind)
